@@ -428,10 +428,12 @@ class ColorValue(Value):
                         continue
 
                     # save components
-                    try:
-                        finite = math.isfinite(item.value.value)
-                    except (OverflowError, TypeError):
-                        finite = type_ not in (Value.NUMBER, Value.PERCENTAGE)
+                    finite = True
+                    if type_ in (Value.NUMBER, Value.PERCENTAGE):
+                        try:
+                            finite = math.isfinite(item.value.value)
+                        except OverflowError:
+                            finite = False
                     if not finite and (HSL or type_ == Value.PERCENTAGE):
                         # (a literal beyond float arithmetic converts to no
                         # channel)
